@@ -63,7 +63,8 @@ def expected_signed(overlay) -> tuple[set, set]:
     return signed, unsigned
 
 
-def mutations(d: bytes, corpus: list[bytes], ids: list[int], thorough: bool, other_prefix: bytes):
+def mutations(d: bytes, corpus: list[bytes], ids: list[int], thorough: bool, other_prefix: bytes,
+              known_keys: tuple = ()):
     """
     Yield (operator, position, mutated bytes).
     """
@@ -95,6 +96,14 @@ def mutations(d: bytes, corpus: list[bytes], ids: list[int], thorough: bool, oth
             # (c) attacker embeds its own key and signs: a genuinely valid message of the attacker
             own = d[:23] + struct.pack(">H", len(other_pub)) + other_pub + d[25 + klen:-siglen]
             yield (f"resigned_by_attacker:{curve}", 0, sign_with(priv, own))
+        # (d) keys the receiver has a special relation with - its own key, keys of peers it has verified - embedded with
+        # the original signature kept, and with a signature made by the attacker's key
+        for label, pub in known_keys:
+            if pub == key_bin:
+                continue
+            forged = d[:23] + struct.pack(">H", len(pub)) + pub + d[25 + klen:]
+            yield (f"key_subst:{label}", 0, forged)
+            yield (f"foreign_signature:{label}", 0, sign_with(keypool.private_bin(ATTACKER, "curve25519"), forged[:-siglen]))
         for delta in (-1, 1, 255):
             yield ("keylen_field", delta, d[:23] + struct.pack(">H", (klen + delta) & 0xFFFF) + d[25:])
         # splice: header + signature of d, payload region of another datagram
@@ -244,7 +253,10 @@ def run_scenario_case(ctx: Ctx | None, scenario: str, shard: int, nshards: int, 
                     # V4 first: the unmodified datagram
                     await b.judge(src, d, {**base, "op": "original", "pos": 0}, original=valid)
                 # a datagram is mutated whether or not it is signed: unsigned ones must not become accepted as signed
-                for op, pos, x in mutations(d, datas, ids, thorough, b.sibling.get_prefix()):
+                known = [("receiver", b.ov.my_peer.public_key.key_to_bin())] + \
+                    [(f"verified_peer{i}", p.public_key.key_to_bin())
+                     for i, p in enumerate(sorted(b.ov.get_peers(), key=lambda p: p.public_key.key_to_bin())[:2])]
+                for op, pos, x in mutations(d, datas, ids, thorough, b.sibling.get_prefix(), tuple(known)):
                     k += 1
                     if only is not None:
                         if (op, pos) != (only["op"], only["pos"]):
